@@ -276,6 +276,17 @@ def group_width(cx, iid):
                       and all(re.fullmatch(r"(I::into_iter\()?Iterator::rev\(Range\{0,32\}\)\)?", x) for x in src) and bool(src))
             except Exception:
                 ok = False
+        mm = re.fullmatch(r"add\((?:1,)?Rev::find\((var\d+),closure:(\S+?)\{arg2(?:\.bitfield)?\}\)@Some\.0(?:,1)?\)", w)
+        if mm:
+            # let Some(top) = (0..32).rev().find(|&i| bitfield & (1 << i) != 0) else { return }; width = top + 1
+            try:
+                src = sorted(show(b.rvalue_expr(node["rv"])) if kind == "assign" else show(b.call_expr(node)) for loc, kind, node in b.defs.get(int(mm.group(1)[3:]), []))
+                c0 = show(R.body(mm.group(2)).local_expr(0))
+                inst.site(b, None, "width = rev(0..32).find(%s)? + 1 over %s" % (c0, src))
+                ok = (re.sub(r"arg1\.0\.bitfield", "arg1.0", c0) in ("ne(0,bitand(arg1.0,shl(1,arg2)))", "ne(0,bitand(shl(1,arg2),arg1.0))")
+                      and all(re.fullmatch(r"(I::into_iter\()?Iterator::rev\(Range\{0,32\}\)\)?", x) for x in src) and bool(src))
+            except Exception:
+                ok = False
         m = re.fullmatch(r"var(\d+)", w)
         if m:
             n = int(m.group(1))
